@@ -434,6 +434,8 @@ def runOp (s : Sexp) : String :=
   -- hundreds of thousands of elements: the model's decoder is quadratic in the element count; oracle only
   | .list [.atom "declong", _, _, .atom _, .atom _] => "unsupported"
   | .list [.atom "internmany", .atom _] => "unsupported"
+  -- pointer-keyed maps: keys are identities, outside the value model
+  | .list [.atom "ptrkeys", .atom _] => "unsupported"
   -- `type P *P`: no finite TyDef
   | .list [.atom "buildself", .atom _] => "unsupported"
   | .list [.atom "zag", .atom n] =>
